@@ -7,6 +7,7 @@ for the ∃-claim `d`), not proofs; the proofs are in `Thm/C06.lean`.
 import MsVerif.Driver.OpsMs
 import MsVerif.Spec.SatTable
 import MsVerif.Spec.TypeSem
+import MsVerif.Model.Validate
 
 namespace MsVerif.Driver
 open MsVerif Script TypeSem
@@ -83,7 +84,10 @@ def mkAlphabet (t : Tables) (ctx : Ctx) (ms : Ms) (allSigs : Bool) : Alphabet :=
   let sigsOf (pk : Bytes) : List Bytes :=
     let l := (t.sigs.filter fun p => p.1 == pk).map (·.2)
     if allSigs then l else l.take 1
-  let validSigs := dedup (keySers.flatMap sigsOf)
+  -- Tap: the first key also gets its second signature form (65 bytes, explicit sighash byte)
+  let secondForm : List Bytes :=
+    if ctx == .tap && !allSigs then ((t.sigs.filter fun p => p.1 == keySers.headD []).map (·.2)).drop 1 |>.take 1 else []
+  let validSigs := dedup (keySers.flatMap sigsOf ++ secondForm)
   let allValid := dedup (keySers.flatMap fun pk => (t.sigs.filter fun p => p.1 == pk).map (·.2))
   -- a signature that verifies, but for a key that is not in the fragment
   let wrongKeySig : List Bytes :=
@@ -157,6 +161,16 @@ def realiseDissat (t : Tables) : SatTable.Item → Option Bytes
   | .empty => some []
   | _ => none
 
+/-- concrete bytes of a canonical-satisfaction item when the spender holds everything -/
+def realiseSat (t : Tables) : SatTable.Item → Option Bytes
+  | .sig k => (t.sigs.find? fun p => p.1 == t.keyEnv.ser k).map (·.2)
+  | .rawSig h =>
+    match t.keys.find? fun e => e.2.2.2 == t.keyEnv.rawPkh h with
+    | some e => (t.sigs.find? fun p => p.1 == e.2.1).map (·.2)
+    | none => none
+  | .pre kind h => (t.hashes.lookup (kind, h)).map (·.2)
+  | it => realiseDissat t it
+
 /-- (nLockTime, nSequence) settings: nothing satisfied / every height lock / every time lock -/
 def txSettings (ms : Ms) : List (Nat × Nat) :=
   if msHasLock ms then [(0, 4294967295), (499999999, 65535), (4294967294, 4194304 + 65535)]
@@ -192,16 +206,61 @@ def judgeTypeExec (t : Tables) (ctx : Ctx) (ms : Ms) (script : List Op) (ty : Ty
   let verdicts := (txSettings ms).map fun (lt, sq) =>
     let env := mkEnv t ctx false lt sq
     let obs (sc : List Op) (s : List Bytes) : Obs := ⟨s, sigFree s, runStack env sc s⟩
+    -- the canonical satisfaction for a spender who holds every signature and preimage, under
+    -- the locks this transaction meets: one run on which a satisfiable fragment SUCCEEDS
+    let allAv : SatTable.Avail := ⟨fun _ => true, fun _ _ => true, fun n => checkLockTime env n,
+      fun n => checkSequence env n, fun _ => true, fun _ => true⟩
+    let canonSat : List (List Bytes) :=
+      match SatTable.satWit allAv (sortKeys ke) (if base == .K then .check ms else ms) with
+      | none => []
+      | some items =>
+        match items.mapM (realiseSat t) with
+        | none => []
+        | some w =>
+          if base == .W then xs.map fun x => x :: (w.reverse ++ sentinel) else [w.reverse ++ sentinel]
     let r : Runs := {
       raw := full.map (obs script)
       eff := if base == .K then full.map (obs effScript) else full.map (obs script)
-      extra := canon.map (obs effScript)
+      extra := (canon ++ canonSat).map (obs effScript)
+      extraRaw := (canon ++ canonSat).map (obs script)
       effOnEmpty := runStack env effScript []
       effOnTop := fun x => runStack env effScript [x] }
     match checkAll ty al.keySers r with
     | none => none
     | some (l, inp) => some s!"bad:{l}:{showStack inp}:tx={lt}/{sq}"
   (verdicts.findSome? id).getD "ok"
+
+mutual
+/-- what `Miniscript::from_ast`, applied bottom-up (children left to right, then the node: type
+check first, `check_global_validity` second), answers: the first refusal, as a kind -/
+def ctorErr (ctx : Ctx) (K : KeyInfo) : Ms → Option String
+  | .alt x => (ctorErr ctx K x).orElse fun _ => nodeErr ctx K (.alt x)
+  | .swap x => (ctorErr ctx K x).orElse fun _ => nodeErr ctx K (.swap x)
+  | .check x => (ctorErr ctx K x).orElse fun _ => nodeErr ctx K (.check x)
+  | .dupIf x => (ctorErr ctx K x).orElse fun _ => nodeErr ctx K (.dupIf x)
+  | .verify x => (ctorErr ctx K x).orElse fun _ => nodeErr ctx K (.verify x)
+  | .nonZero x => (ctorErr ctx K x).orElse fun _ => nodeErr ctx K (.nonZero x)
+  | .zeroNotEqual x => (ctorErr ctx K x).orElse fun _ => nodeErr ctx K (.zeroNotEqual x)
+  | .andV l r => (ctorErr ctx K l).orElse fun _ => (ctorErr ctx K r).orElse fun _ => nodeErr ctx K (.andV l r)
+  | .andB l r => (ctorErr ctx K l).orElse fun _ => (ctorErr ctx K r).orElse fun _ => nodeErr ctx K (.andB l r)
+  | .orB l r => (ctorErr ctx K l).orElse fun _ => (ctorErr ctx K r).orElse fun _ => nodeErr ctx K (.orB l r)
+  | .orD l r => (ctorErr ctx K l).orElse fun _ => (ctorErr ctx K r).orElse fun _ => nodeErr ctx K (.orD l r)
+  | .orC l r => (ctorErr ctx K l).orElse fun _ => (ctorErr ctx K r).orElse fun _ => nodeErr ctx K (.orC l r)
+  | .orI l r => (ctorErr ctx K l).orElse fun _ => (ctorErr ctx K r).orElse fun _ => nodeErr ctx K (.orI l r)
+  | .andOr a b c =>
+    (ctorErr ctx K a).orElse fun _ => (ctorErr ctx K b).orElse fun _ => (ctorErr ctx K c).orElse fun _ =>
+      nodeErr ctx K (.andOr a b c)
+  | .thresh k xs => (ctorErrL ctx K xs).orElse fun _ => nodeErr ctx K (.thresh k xs)
+  | leaf => nodeErr ctx K leaf
+def ctorErrL (ctx : Ctx) (K : KeyInfo) : MsList → Option String
+  | .nil => none
+  | .cons x xs => (ctorErr ctx K x).orElse fun _ => ctorErrL ctx K xs
+/-- one node whose children exist: the typing rule, then the context's node test -/
+def nodeErr (ctx : Ctx) (K : KeyInfo) (node : Ms) : Option String :=
+  if (typeOf node).isNone then some "ERR:type"
+  else if !nodeChecked ctx K node then some "ERR:context"
+  else none
+end
 
 def tierOfOp : String → Option Nat
   | "typeexecq" => some 0 | "typeexec" => some 1 | "typeexecx" => some 2 | _ => none
@@ -218,6 +277,15 @@ def opsTypeExec (t : Tables) (kind op : String) (args : List String) : Option St
     let ctx ← parseCtx ctx; let ms ← parseAst ast; let ty ← Ty.ofStr? ty
     let v := judgeTypeExec t ctx ms (encode t.keyEnv ctx ms) ty 0
     pure (if v.startsWith s!"bad:{l}:" then "refuted" else s!"missed:{v}")
+  -- C typeofctx <ctx> <ast>: what from_ast answers for a candidate offered in a context it may
+  -- not belong to (key kinds are read off the key table: 33 / 65 / 32 bytes): the type, or the
+  -- KIND of the first refusal (typing rule vs. context rule)
+  | "C", "typeofctx", [ctx, ast] => do
+    let ctx ← parseCtx ctx; let ms ← parseAst ast
+    let K : KeyInfo := ⟨keyKindOf t.keyEnv, fun _ => 0⟩
+    pure (match ctorErr ctx K ms with
+      | some e => e
+      | none => match typeOf ms with | some ty => ty.toStr | none => "ERR:type")
   -- size of the input domain of one fragment (makes the exhaustive part explicit):
   -- C typeexecdom <ctx> <ast> <tier 0|1|2>
   | "C", "typeexecdom", [ctx, ast, tier] => do
